@@ -149,7 +149,6 @@ package forkexec
 //@   callsite pkg/forkexec/vfork.RawVforkSyscall when trap == 56: assert @C04 #bv a1 & 2114060288 == old(r.CloneFlags) & 2114060288 && a1 & 255 == 17 && old(r.CgroupFd) == 0
 //@   callsite pkg/forkexec/vfork.RawVforkSyscall when trap == 435: assert @C04 #bv uintptr(clone3.flags) & 2114060288 == old(r.CloneFlags) & 2114060288 && clone3.flags & 8589934592 != 0 && clone3.exitSignal == 17 && clone3.cgroup == uint64(old(r.CgroupFd)) && old(r.CgroupFd) > 0 && a2 == 88
 
-
 // ---- predicates over the ghost child state K (expanded where used) ----
 // 2114060288 = UnshareFlags (NEWIPC|NEWNET|NEWNS|NEWPID|NEWUSER|NEWUTS|NEWCGROUP); securebits NOROOT|NOROOT_LOCKED = 3
 //@ macro creds_ok() = old(r.Credential) != nil ==> K.uid_set && K.uid == uintptr(old(r.Credential.Uid)) && K.gid_set && K.gid == uintptr(old(r.Credential.Gid)) && ((!(old(r.GIDMappings) != nil && !old(r.GIDMappingsEnableSetgroups) && len(old(r.Credential.Groups)) == 0) && !old(r.Credential.NoSetGroups)) ==> K.groups_set && K.ngroups == uintptr(len(old(r.Credential.Groups))))
